@@ -103,7 +103,7 @@ let show_value = function
   | VHandle (Some h) -> "ok " ^ hname h
   | VHandle None -> "ok -"
 
-(* C05: per case, does the history satisfy the guard of the uniqueness theorem (Heap/Uniq.v run_ok), and does the
+(* C05: per case, does the history satisfy the guard of the uniqueness theorem (Heap/Uniq.v shaped_run), and does the
    model's state satisfy the invariant after every call; summed over the run and written to stderr at the end *)
 let guard_ok = ref true
 let uniq_ok = ref true
